@@ -15,7 +15,7 @@ LEVEL = 'exploration'
 RULE = (
     "A case is one storage layout plus a list of index expressions. (small) exhaustive: for every "
     "n<=6 (quick) / <=8 (thorough), every composition of n into flat files (header offsets and "
-    "sample dtypes cycling over {0,1,7,16} x {int16,int32,uint8,float32,float64}, file names in "
+    "sample dtypes cycling over {0,1,7,16} x {int16,int32,uint8,float32,float64,>i2,>f4}, file names in "
     "ascending, descending or run_8/run_9/run_10 lexicographic order) "
     " plus single-part "
     "array/npy/cbin layouts, EVERY integer in [-n,n), EVERY non-empty unit-step slice with bounds "
@@ -39,7 +39,8 @@ def _small_cases(N):
         for parts in S.compositions(n):
             k += 1
             yield {'mode': 'all', 'lay': {
-                'n': n, 'nch': 3, 'dtype': S.SAMPLE_DTYPES[k % 5], 'backend': 'flat',
+                'n': n, 'nch': 3, 'dtype': (S.SAMPLE_DTYPES + S.BIG_ENDIAN_DTYPES)[k % 7],
+                'backend': 'flat',
                 'parts': parts, 'offset': OFFSETS[(k // 5) % 4], 'chunk': 1 + k % (n + 2),
                 'salt': k % 7, 'ext': ['.dat', '.bin', '.raw'][k % 3],
                 'names': ['asc', 'desc', 'num'][(k // 3) % 3]}}
@@ -56,7 +57,7 @@ def _small_cases(N):
 
 @st.composite
 def _rand_case(draw):
-    lay = draw(S.layout())
+    lay = draw(S.layout(big_endian=True))
     n = lay['n']
     bounds = list(np.cumsum(lay['parts']))
     allow_list = lay['backend'] != 'cbin'
@@ -96,13 +97,18 @@ def _check_expr(reader, A, e, c, stats):
             out = must_return(what + '[:]', lambda: out[:])
     require(isinstance(out, np.ndarray), '%s is not an array' % what, key='not-array',
             observed=type(out))
-    same_array(what, out, exp, key='values:' + e['t'] + ('+cols' if c is not None else ''))
+    # (np.concatenate normalises a non-native byte order, so the dtype is compared modulo byte
+    # order: same kind and width, same values)
+    exp = exp.astype(exp.dtype.newbyteorder('='))
+    out_n = out.astype(out.dtype.newbyteorder('=')) if isinstance(out, np.ndarray) else out
+    same_array(what, out_n, exp, key='values:' + e['t'] + ('+cols' if c is not None else ''))
     if isinstance(rows, np.ndarray):
         # NumPy indexing has no side effect on the index: the same index object must select the
         # same rows when it is used again
         again = must_return(what + ' (same index object, second use)', lambda: reader[rows])
-        same_array(what + ' (same index object, second use)', again, S.numpy_rows(A, e),
-                   key='values:index-reused')
+        same_array(what + ' (same index object, second use)',
+                   again.astype(again.dtype.newbyteorder('=')),
+                   S.numpy_rows(A, e).astype(A.dtype.newbyteorder('=')), key='values:index-reused')
     stats['exprs'] += 1
 
 
@@ -118,8 +124,8 @@ def check(case):
                 expected=A.shape)
         require(int(r.n_samples) == n and int(r.n_channels) == lay['nch'], 'n_samples/n_channels',
                 key='meta-n', observed=(r.n_samples, r.n_channels), expected=A.shape)
-        require(np.dtype(r.dtype) == A.dtype, 'dtype', key='meta-dtype', observed=r.dtype,
-                expected=A.dtype)
+        require(np.dtype(r.dtype).newbyteorder('=') == A.dtype.newbyteorder('='), 'dtype',
+                key='meta-dtype', observed=r.dtype, expected=A.dtype)
         require(abs(float(r.duration) - n / o.sample_rate) <= 1e-9 * (n / o.sample_rate),
                 'duration', key='meta-duration', observed=r.duration, expected=n / o.sample_rate)
         if lay['backend'] == 'flat':
